@@ -561,6 +561,9 @@ func (e *Exec) VerifyFunction(fn *ssa.Function, ctr *Contract) (err error) {
 	e.emitSpecPrelude()
 	st := e.entry.clone()
 	e.Out.Assert("(>= " + e.top(st) + " 0)")
+	if ctr != nil && ctr.Calls != nil {
+		e.Out.Assert(Eq(e.get(e.entry, "$calls$"+ctr.Calls.Fun, SInt), "0"))
+	}
 	// parameters
 	var args []Val
 	for _, p := range fn.Params {
@@ -618,6 +621,11 @@ func (e *Exec) VerifyFunction(fn *ssa.Function, ctr *Contract) (err error) {
 			// contracts); its negation canaries are then meaningless and are dropped by PostProcess
 			addRet(&Obligation{Name: FuncKey(fn) + "/canary:reach" + suffix, Func: FuncKey(fn), Kind: "reach", Label: "reach" + suffix, Text: "return at " + r.pos + " is reachable",
 				Formula: Not(r.guard), Expect: "sat"}, r)
+			if ctr.Calls != nil {
+				cnt := e.get(r.st, "$calls$"+ctr.Calls.Fun, SInt)
+				addRet(&Obligation{Name: FuncKey(fn) + "/calls:" + ctr.Calls.Fun + "/once" + suffix, Func: FuncKey(fn), Kind: "calls", Label: "once", Text: ctr.Calls.Fun + " has been called exactly once when this return is reached", Src: ctr.Calls.Src,
+					Formula: Imp(r.guard, Eq(cnt, "1")), Inputs: e.obsInputs(fr)}, r)
+			}
 			for _, c := range ctr.ExitHints {
 				t := e.evalBool(c, env2)
 				addRet(&Obligation{Name: FuncKey(fn) + "/hint:exit:" + c.Label + suffix, Func: FuncKey(fn), Kind: "hint", Label: c.Label, Text: c.Text, Src: c.Src,
